@@ -163,6 +163,61 @@ package align
 //@     invariant forall r :: $i <= r && r < nrows(a) ==> sameslice(row(a, r).sequence, old(row(a, r).sequence))
 //@     decreases nrows(a) - $i
 
+// ---- C15: masking ----
+
+// number of rows r < n whose residue in column c is x
+//@ pure func colcnt(a *align, c int, x int, n int) int = (n <= 0 ? 0 : colcnt(a, c, x, n-1) + (cell(a, n-1, c) == x ? 1 : 0))
+// most frequent residue code below k in column c, ties to the lowest code; -1 when no residue code below k occurs
+//@ pure func majupto(a *align, c int, k int) int = (k <= 0 ? -1 : (majupto(a, c, k-1) == -1 ? (colcnt(a, c, k-1, nrows(a)) > 0 ? k-1 : -1) : (colcnt(a, c, k-1, nrows(a)) > colcnt(a, c, majupto(a, c, k-1), nrows(a)) ? k-1 : majupto(a, c, k-1))))
+//@ pure func refch(a *align, refseq string, noref bool, c int) int = (refseq != "" && noref ? old(a.seqmap[refseq].sequence[c]) : '.')
+//@ pure func msel(a *align, refseq string, start int, length int, nogap bool, noref bool, r int, c int) bool = start <= c && c < start + length && c < old(a.length) && !(nogap && old(cell(a, r, c)) == '-') && !(noref && old(cell(a, r, c)) == refch(a, refseq, noref, c))
+//@ pure func mrep(a *align, maskreplace string, c int) int = (maskreplace == "GAP" ? '-' : (maskreplace == "MAJ" ? old(majupto(a, c, 130)) : (maskreplace == "AMBIG" || maskreplace == "" ? (a.alphabet == AMINOACIDS ? 'X' : 'N') : maskreplace[0])))
+//@ pure func masked(a *align, refseq string, start int, length int, maskreplace string, nogap bool, noref bool, r int, c int) int = (msel(a, refseq, start, length, nogap, noref, r, c) ? mrep(a, maskreplace, c) : old(cell(a, r, c)))
+//@ pure func maskerr(a *align, refseq string, start int, maskreplace string, noref bool) bool = start < 0 || start > a.length || ((maskreplace == "AMBIG" || maskreplace == "") && a.alphabet != AMINOACIDS && a.alphabet != NUCLEOTIDS) || (maskreplace != "AMBIG" && maskreplace != "" && maskreplace != "GAP" && maskreplace != "MAJ" && len(maskreplace) != 1) || (refseq != "" && noref && !has(a.seqmap, refseq))
+
+//@ func (*align).Mask
+//@   props C15 C19
+//@   requires wfa(a) && owns(a) && 0 <= length && length <= 4611686018427387904
+//@   requires maskreplace == "MAJ" ==> forall r, c :: 0 <= r && r < nrows(a) && 0 <= c && c < a.length ==> cell(a, r, c) < 130
+//@   ensures (err != nil) == old(maskerr(a, refseq, start, maskreplace, noref))
+//@   ensures err != nil ==> forall r, c :: 0 <= r && r < nrows(a) && 0 <= c && c < a.length ==> cell(a, r, c) == old(cell(a, r, c))
+//@   ensures err == nil ==> forall r, c :: 0 <= r && r < nrows(a) && 0 <= c && c < a.length ==> cell(a, r, c) == masked(a, refseq, start, length, maskreplace, nogap, noref, r, c)
+//@   ensures a.length == old(a.length) && nrows(a) == old(nrows(a)) && (forall r :: 0 <= r && r < nrows(a) ==> row(a, r) == old(row(a, r)) && rowname(a, r) == old(rowname(a, r)) && sameslice(row(a, r).sequence, old(row(a, r).sequence)))
+//@   modifies mem(uint8)
+//@   loop 1
+//@     invariant err == nil && start <= i && (i <= a.length || i == start) && 0 <= start && start <= a.length
+//@     invariant !old(maskerr(a, refseq, start, maskreplace, noref))
+//@     invariant refseq != "" && noref ==> refSequence == a.seqmap[refseq] && refSequence != nil
+//@     invariant maskreplace != "MAJ" ==> rep == mrep(a, maskreplace, 0)
+//@     invariant !(refseq != "" && noref) ==> refchar == '.'
+//@     invariant forall r, c :: 0 <= r && r < nrows(a) && 0 <= c && c < i && c < a.length ==> cell(a, r, c) == masked(a, refseq, start, length, maskreplace, nogap, noref, r, c)
+//@     invariant forall r, c :: 0 <= r && r < nrows(a) && i <= c && c < a.length ==> cell(a, r, c) == old(cell(a, r, c))
+//@     decreases a.length - i + 1
+//@   loop 2
+//@     modifies occurences[*]
+//@     invariant 0 <= i && i < a.length && len(occurences) == 130 && fresh(occurences)
+//@     invariant forall x :: 0 <= x && x < 130 ==> occurences[x] == old(colcnt(a, i, x, $i))
+//@     invariant forall x :: 0 <= x && x < 130 ==> occurences[x] >= 0
+//@     invariant $i > 0 ==> occurences[old(cell(a, 0, i))] >= 1
+//@     decreases nrows(a) - $i
+//@   loop 3
+//@     modifies nothing
+//@     invariant 0 <= i && i < a.length && len(occurences) == 130 && 0 <= max
+//@     invariant (max == 0) == (old(majupto(a, i, $i)) == -1)
+//@     invariant forall x :: 0 <= x && x < 130 ==> occurences[x] == old(colcnt(a, i, x, nrows(a)))
+//@     invariant nrows(a) > 0 && $i > old(cell(a, 0, i)) ==> max > 0
+//@     invariant max > 0 ==> rep == old(majupto(a, i, $i)) && max == occurences[rep] && 0 <= rep && rep < $i
+//@     decreases 130 - $i
+//@   loop 4
+//@     invariant 0 <= i && i < a.length && start <= i && i < start + length
+//@     invariant nrows(a) > 0 ==> rep == mrep(a, maskreplace, i)
+//@     invariant refchar == refch(a, refseq, noref, i)
+//@     invariant forall r, c :: 0 <= r && r < nrows(a) && 0 <= c && c < i ==> cell(a, r, c) == masked(a, refseq, start, length, maskreplace, nogap, noref, r, c)
+//@     invariant forall r :: 0 <= r && r < $i ==> cell(a, r, i) == masked(a, refseq, start, length, maskreplace, nogap, noref, r, i)
+//@     invariant forall r :: $i <= r && r < nrows(a) ==> cell(a, r, i) == old(cell(a, r, i))
+//@     invariant forall r, c :: 0 <= r && r < nrows(a) && i < c && c < a.length ==> cell(a, r, c) == old(cell(a, r, c))
+//@     decreases nrows(a) - $i
+
 // ---- C06: strand and case transforms ----
 
 //@ table complement_nuc_mapping C06
